@@ -93,7 +93,7 @@ pub fn run(prop: &str, a: &Args, rep: &mut Report) {
     let mut rng = Rng::derive(a.seed, a.shard, 2);
     for k in 0..mix.structured {
         let calc = match rng.below(8) {
-            0 => CalcSpec::Const(*rng.pick(&[0u16, 8, 64, 128, 256, 512])),
+            0 => CalcSpec::Const(*rng.pick(&[0u16, 8, 64, 128, 256, 512, 12, 20, 100, 127, 255])),
             1 => CalcSpec::Table(rng.below(16) as u16),
             _ => CalcSpec::None,
         };
